@@ -23,11 +23,6 @@ import (
 var panicTable = map[string]string{
 	"recursion:func(a *registry.Package, b *registry.Package, lvl int):·,·,param+c": "conflict resolution one level deeper with the third-party holder of a wanted name: that holder is never a member of the pair (checked in the condition); beyond the deepest path level the wanted name is constant and has one holder, so a frame there either assigns or meets the equal-names branch, which is bounded by depth() and ends in numbering",
 	"recursion:func(a *registry.Package, b *registry.Package, lvl int):param,·,param+c": "as above, written in a helper that receives the package as a parameter",
-	"reverse:len(a) / 2":                                                      "constant non-zero divisor",
-	"capitalise:s[:1]":                                                        "every caller passes a go/types name or a non-empty constant/concatenation (nestedType results, which are non-empty for every type constructor)",
-	"capitalise:s[1:]":                                                        "as above",
-	"deCapitalise:s[:1]":                                                      "every caller passes a go/types type or object name, which is never empty",
-	"deCapitalise:s[1:]":                                                      "as above",
 }
 
 // recursion whose argument is a strict component of the value switched on terminates:
